@@ -533,7 +533,7 @@ def dump_store(app, with_text=True):
                 if isinstance(child, rstorage.BaseCollection):
                     walk("/" + child.path + "/")
                 else:
-                    d = {"uid": child.uid, "etag": child.etag}
+                    d = {"uid": child.uid, "etag": child.etag, "name": child.name}
                     if with_text:
                         d["text"] = child.serialize()
                     entry["items"][child.href] = d
